@@ -577,7 +577,7 @@ func (w *World) pureAppN(u *Unit, c *Contract, callee *ssa.Function, sig *types.
 func (w *World) addTrace(t *Trace) {
 	w.Traces = append(w.Traces, t)
 	// ghost sorts from the target
-	var recvT, retT, argT types.Type
+	var recvT, retT, argT, arg2T types.Type
 	p := w.pkgByPath(t.Pkg)
 	if p != nil || t.Kind == "extern" {
 		switch t.Kind {
@@ -630,6 +630,9 @@ func (w *World) addTrace(t *Trace) {
 				if fn.Signature.Params().Len() > 0 {
 					argT = fn.Signature.Params().At(0).Type()
 				}
+				if fn.Signature.Params().Len() > 1 {
+					arg2T = fn.Signature.Params().At(1).Type()
+				}
 				if fn.Signature.Results().Len() > 0 {
 					retT = fn.Signature.Results().At(0).Type()
 				}
@@ -643,6 +646,16 @@ func (w *World) addTrace(t *Trace) {
 	}
 	if argT != nil {
 		w.GhostSorts["arg"+t.Tag] = ghostInfo{argT}
+	}
+	// rseq/aseq/bseq<Tag>(j): receiver, first and second argument of the j-th traced call
+	if recvT != nil {
+		w.GhostSorts["rseq"+t.Tag] = ghostInfo{types.NewArray(recvT, 0)}
+	}
+	if argT != nil {
+		w.GhostSorts["aseq"+t.Tag] = ghostInfo{types.NewArray(argT, 0)}
+	}
+	if arg2T != nil {
+		w.GhostSorts["bseq"+t.Tag] = ghostInfo{types.NewArray(arg2T, 0)}
 	}
 	if retT != nil {
 		w.GhostSorts["ret"+t.Tag] = ghostInfo{retT}
@@ -705,6 +718,26 @@ func (f *Frame) recordTrace(ti *traceInfo, st *state, args []Val, rs []Val) {
 		if i < len(args) && args[i].T != "" && u.D.SortOf(args[i].Typ) == gi.sort(u) {
 			u.scalar("$g.arg"+tag, gi.sort(u))
 			u.hset(st.heap, "$g.arg"+tag, args[i].T)
+		}
+	}
+	if si, ok := u.W.GhostSorts["rseq"+tag]; ok && len(args) > 0 && args[0].T != "" && ti.hasRecv {
+		if at, ok := si.typ.(*types.Array); ok && u.D.SortOf(args[0].Typ) == u.D.SortOf(at.Elem()) {
+			u.scalar("$g.rseq"+tag, si.sort(u))
+			u.hset(st.heap, "$g.rseq"+tag, sto(u.hget(st.heap, "$g.rseq"+tag), u.hget(st.heap, "$g.n"+tag), args[0].T))
+		}
+	}
+	for k, nm := range []string{"aseq", "bseq"} {
+		si, ok := u.W.GhostSorts[nm+tag]
+		if !ok {
+			continue
+		}
+		i := k
+		if ti.hasRecv {
+			i = k + 1
+		}
+		if at, ok := si.typ.(*types.Array); ok && i < len(args) && args[i].T != "" && u.D.SortOf(args[i].Typ) == u.D.SortOf(at.Elem()) {
+			u.scalar("$g."+nm+tag, si.sort(u))
+			u.hset(st.heap, "$g."+nm+tag, sto(u.hget(st.heap, "$g."+nm+tag), u.hget(st.heap, "$g.n"+tag), args[i].T))
 		}
 	}
 	if gi, ok := u.W.GhostSorts["ret"+tag]; ok && len(rs) > 0 {
